@@ -128,6 +128,8 @@ fn replay(path: &str, expect_class: Option<&str>) -> i32 {
             return EXIT_HARNESS;
         }
     };
+    // the environment of the worker process that found it
+    simcore::envswarm::install_from_json(&v["script"]["env"]);
     let mut st = Stats::default();
     let opts = ExecOpts {
         crosscheck: false,
@@ -293,6 +295,9 @@ fn main() {
 
     // ---- worker process: one slice of one phase, single-threaded ----
     if let Some((phase, k, w)) = worker_proc {
+        // the process environment is a seam too: odd-numbered workers run with a seeded set of
+        // date/locale related variables (never TZ), even-numbered ones with none of them
+        simcore::envswarm::install(&simcore::envswarm::plan(seed, k));
         let mut acc = Stats::default();
         match phase.as_str() {
             "sweep" => {
@@ -333,6 +338,7 @@ fn main() {
         std::process::exit(EXIT_OK);
     }
 
+    simcore::envswarm::install(&simcore::envswarm::baseline());
     println!("C18 simulation: VERIF_SEED={seed} tier={tier}");
     if !crosscheck {
         println!("note: seam-fidelity cross-check disabled (chrono::Local::now() over the interposed clock_gettime did not return simulator time)");
@@ -392,7 +398,10 @@ fn main() {
 
     // ---- scenario C: threads sharing Formatter objects, under Miri's seeded scheduler ----
     let miri_seeds = miri_seeds_override.unwrap_or(if thorough { 128 } else { 8 });
-    let rates: Vec<&str> = if thorough { vec!["0.05", "0.5"] } else { vec!["0.1"] };
+    // a high preemption rate (a thread switch after almost every basic block) interleaves threads that do
+    // the same thing at the finest grain; lower rates give longer uninterrupted stretches
+    let rates: Vec<&str> = if thorough { vec!["0.05", "0.5", "0.9"] } else { vec!["0.9", "0.1"] };
+    let miri_seeds = if thorough { miri_seeds } else { (miri_seeds / 2).max(1) };
     let miri_res = if no_miri || !total.violations.is_empty() {
         None
     } else {
@@ -412,6 +421,9 @@ fn main() {
     let mut n_viol = 0;
     for (idx, script, v) in total.violations.clone() {
         println!("original violation (run {}): class={} : {}", idx, v.class, v.detail);
+        // from here on this process, and every process it starts, runs in the environment of the
+        // worker that found the violation
+        simcore::envswarm::install(&simcore::envswarm::plan(seed, idx % workers as u64));
         let class = v.class;
         // Does the run reproduce on its own in a fresh process? If it only
         // fails after earlier runs of the same worker thread (hidden state in
